@@ -29,6 +29,9 @@ SizeHosts == << << <<>>, <<>> >>,                                               
                 << <<"(", "?", "!", "b", ")">>, <<>> >> >>                            \* (?!b)D
 \* option combinations (0 = leave the builder default): 1 tiny size limit, 2 defaults, 3 and 4 the tiny size limit TOGETHER with a
 \* DFA size limit (set after / before it).  The DFA limit never makes a build fail, so 3 and 4 must give the verdict of 1.
-SizeLimits == << [size |-> 100, dfa |-> 0, dfafirst |-> FALSE], [size |-> 0, dfa |-> 0, dfafirst |-> FALSE],
-                 [size |-> 100, dfa |-> 100, dfafirst |-> FALSE], [size |-> 100, dfa |-> 1048576, dfafirst |-> TRUE] >>
+SizeLimits == << [size |-> 100, dfa |-> 0, dfafirst |-> FALSE, ci |-> 0], [size |-> 0, dfa |-> 0, dfafirst |-> FALSE, ci |-> 0],
+                 [size |-> 100, dfa |-> 100, dfafirst |-> FALSE, ci |-> 0], [size |-> 100, dfa |-> 1048576, dfafirst |-> TRUE, ci |-> 0],
+                 \* 5 and 6: the tiny size limit TOGETHER with case_insensitive(true) (ci = 1: set before the limits, 2: after).  Both pieces
+                 \* exceed the limit with or without case folding, so 5 and 6 must give the verdict of 1 as well.
+                 [size |-> 100, dfa |-> 0, dfafirst |-> FALSE, ci |-> 1], [size |-> 100, dfa |-> 100, dfafirst |-> TRUE, ci |-> 2] >>
 =============================================================================
